@@ -848,7 +848,10 @@ class Expander:
                 return self.do_sum(self.need_r(self.eval(f.value, env)) * self.need_r(self.eval(args[0], env)), tag="@")
             if meth in ("max", "min", "mean", "std") and not args:
                 base = self.need_r(self.eval(f.value, env))
-                return anf.fn_(meth, base)
+                # the axis is part of the function: x.mean(axis=0) (one value per column) is not x.mean() (one number)
+                kw_ = {k_.arg: ast.unparse(k_.value) for k_ in node.keywords if k_.arg in ("axis", "keepdims", "ddof")}
+                tag_ = "[" + ",".join(f"{a_}={v_}" for a_, v_ in sorted(kw_.items())) + "]" if kw_ else ""
+                return anf.fn_(meth + tag_, base)
             # rng draws and other opaque method calls
             return self.opaque_call(ast.unparse(f), node, env)
         if isinstance(f, ast.Name):
